@@ -106,6 +106,40 @@ def render(conds, spell=0):
     return and_.join(parts)
 
 
+QM = [C("tm.event", "=", "str", "Tx")]
+EV_TX = [{"k": "tm.event", "v": ["Tx"]}, {"k": "tx.height", "v": ["7"]}]
+
+
+def slow_recovery_steps(fast, slow, other, qm, qo, k, fastcap, variant):
+    """fast and slow hold the same query text qm (other holds qo); slow (capacity k) does not read
+    and is dropped by the loop on the (k+1)-th matching publication; then it recovers the way a
+    client does -- Unsubscribe / UnsubscribeAll / Subscribe again -- and publications go on."""
+    pub = {"op": "Publish", "events": EV_TX}
+    steps = [{"op": "Subscribe", "c": fast, "q": qm, "cap": fastcap},
+             {"op": "Subscribe", "c": other, "q": qo, "cap": 0},
+             {"op": "Subscribe", "c": slow, "q": qm, "cap": k}] + [dict(pub) for _ in range(k + 1)]
+    unsub = {"op": "Unsubscribe", "c": slow, "q": qm}
+    resub = {"op": "Subscribe", "c": slow, "q": qm, "cap": 2}
+    steps += {"a": [unsub], "b": [{"op": "UnsubscribeAll", "c": slow}],
+              "c": [dict(resub), unsub, dict(resub)], "d": [unsub, {"op": "Subscribe", "c": slow, "q": qm, "cap": 0}]}[variant]
+    return steps + [dict(pub), dict(pub)]
+
+
+def slow_recovery_scheds(reps):
+    """the motif on its own, every variant (always part of the schedule set, both tiers)"""
+    out = []
+    queries = [QM, [C("tm.event", "=", "str", "NewBlockHeader")], [C("a.s", "=", "str", "x y")]]
+    for k in (1, 2):
+        for fastcap in (0, 3):
+            for variant in "abcd":
+                steps = slow_recovery_steps("c1", "c2", "c3", 1, 2, k, fastcap, variant)
+                steps += [{"op": "Publish", "events": [{"k": "tm.event", "v": ["NewBlockHeader"]}]},
+                          {"op": "Publish", "events": EV_TX}]
+                out.append({"clients": ["c1", "c2", "c3"], "queries": queries, "spell": [0, 0, 0], "cmdcap": 0,
+                            "steps": steps, "reps": reps, "tag": "slow-recovery-%d-%d-%s" % (k, fastcap, variant)})
+    return out
+
+
 def random_sched(rng, k, reps):
     ncl = rng.randint(2, 6)
     clients = ["c%d" % (i + 1) for i in range(ncl)]
@@ -129,11 +163,11 @@ def random_sched(rng, k, reps):
         as_values += [va, vb]
     # ... and, separately, textually different but equivalent spellings of one query
     for _ in range(rng.choice([0, 0, 1, 2])):
-        k = rng.randrange(len(queries))
+        j = rng.randrange(len(queries))
         # (two ids with the same conditions AND the same spelling would be ONE query text)
-        free = [x for x in (0, 1, 2) if all(not (q == queries[k] and sp == x) for q, sp in zip(queries, spell))]
+        free = [x for x in (0, 1, 2) if all(not (q == queries[j] and sp == x) for q, sp in zip(queries, spell))]
         if free:
-            queries.append(queries[k])
+            queries.append(queries[j])
             spell.append(rng.choice(free))
     # one id per query TEXT: (conditions, spelling) pairs must be unique
     uq, usp = [], []
@@ -161,6 +195,20 @@ def random_sched(rng, k, reps):
     rng.shuffle(opening)
     steps += opening
     nsub += len(opening)
+    # slow-client recovery (half of the schedules): a client that the LOOP dropped with
+    # ErrOutOfCapacity is still listed in the Server-level map and afterwards unsubscribes /
+    # re-subscribes, while another client holds the SAME query text and one a different text
+    if rng.random() < 0.5:
+        if QM not in queries:
+            queries[-1], spell[-1] = QM, 0
+        qm = queries.index(QM) + 1
+        qo = rng.choice([i for i in range(1, nq + 1) if i != qm] or [qm])
+        cl = rng.sample(clients, min(3, ncl))
+        fast, slow, other = cl[0], cl[1], cl[-1]
+        m = slow_recovery_steps(fast, slow, other, qm, qo, rng.choice([1, 2]), rng.choice([0, 0, 3]),
+                                rng.choice("abcd"))
+        steps += m
+        nsub += sum(1 for x in m if x["op"] == "Subscribe")
     for _ in range(rng.randint(6, 16)):
         x = rng.random()
         if x < 0.5:
@@ -298,8 +346,8 @@ def pubsub_body(ctx, st, main_ex, main_futs):
     attack = []
     from concurrent.futures import ThreadPoolExecutor
     weak = (("ErrorAbortsPublish", "ExactDelivery"), ("BlockOnFullBuffer", "NeverBlockedOnBuffered"),
-            ("UnsubLeavesQuery", None))
-    with ThreadPoolExecutor(max_workers=3) as ex:
+            ("UnsubLeavesQuery", None), ("DoubleRemoveReleasesForeignRef", "ExactDelivery"))
+    with ThreadPoolExecutor(max_workers=4) as ex:
         weak_res = list(ex.map(lambda wi: ctx.tlc("C19_pubsub", "C19_weak_%s.cfg" % wi[0], timeout=600, workers=3,
                                                   label="weak_" + wi[0]), weak))
     for (w, inv), rw in zip(weak, weak_res):
@@ -314,6 +362,9 @@ def pubsub_body(ctx, st, main_ex, main_futs):
         # weakened step is observable at the subscribers
         sc["steps"] += [{"op": "Publish", "events": e} for e in MC_EVENTS + MC_EVENTS[:1]]
         attack.append(sc)
+    # the slow-client recovery motif in every variant (dropped by the loop, then Unsubscribe /
+    # UnsubscribeAll / Subscribe again, while others hold the same and a different query text)
+    attack += slow_recovery_scheds(3)
 
     # ---- 2. schedules: whole act-augmented graph of the small config, simulation, attack, random
     cfg_rep = core.cfg_variant(ctx, "C19_pubsub_replay.cfg", "C19_pubsub_replay_run.cfg",
@@ -668,8 +719,10 @@ def verdict_sig(v):
 
 RULE = ("pub-sub: (a) every state of the act-augmented TMPubSubSM graph (2 clients, 3 queries incl. one that errors, 3 "
         "events, caps {0,1}, %d API calls) reached by replaying the API/read steps of its BFS path on a real "
-        "pubsub.Server, (b) %d TLC simulation behaviours of the larger config, (c) the counterexamples of the three "
-        "weakened specs as attack schedules, (d) %d seeded random schedules (2-6 clients, 3-7 queries with >= 2 that "
+        "pubsub.Server, (b) %d TLC simulation behaviours of the larger config, (c) the counterexamples of the four "
+        "weakened specs as attack schedules and the slow-client recovery motif (dropped with ErrOutOfCapacity, then "
+        "Unsubscribe / UnsubscribeAll / Subscribe again, others holding the same and another query text) in 16 "
+        "variants, (d) %d seeded random schedules, half of them containing that motif (2-6 clients, 3-7 queries with >= 2 that "
         "can error, caps 0-3, command buffer 0/1/3); order-sensitive schedules are run up to %d times because Go map "
         "order cannot be forced, EVERY run is validated (identical runs once); a step is distinct by (call, arguments, "
         "observed subscription objects). query semantics: %d (query, event map) pairs evaluated by the real "
